@@ -172,7 +172,7 @@ theorem compile_refines_reference (rnf : Bool) (testTypes : List Str)
     (hc : Compile.compile RefFlow.noArgsTests testTypes (rows.map CoreSheet.toEvent) = .ok out)
     (hr : RefFlow.refFlow (rows.map CoreSheet.toRRow) = .ok r) :
     ∀ env n, trace ⟨false, rnf⟩ r env n = trace ⟨false, rnf⟩ (Compile.renderOut out) env n :=
-  fun env n => trace_eq_of_abs _ _ _ (CoreSheet.fragment_abs rnf testTypes rows out r hF hc hr) env n
+  fun env n => CoreSheet.fragment_trace rnf testTypes rows out r hF hc hr env n
 
 /-- the statement at the observation level of C02, with the source's table of tests without
 argument (`tables_agree` below) -/
@@ -229,7 +229,9 @@ on Completed and on Expired, a `call_webhook` row left on Success and unconditio
 row with a named bucket that is redirected later, an unnamed bucket and a second named bucket, a
 `hard_exit`, a `go_to` with two
 edges back to the first row (a cycle), a row after them with blank `from` (it follows the last
-node-producing row), a `loose_exit` -/
+node-producing row), a `loose_exit`, an action row left on two tests of the reply and unconditionally
+(the compiler creates a waiting router node behind its node), an action row left on two tests of a
+variable (a router node that does not wait) -/
 def exRows : List CoreSheet.CRow :=
   [ mkRow "a" "send_message" [("start", "")] (some "A"),
     mkRow "w" "wait_for_response" [("a", "")] none "60",
@@ -252,7 +254,12 @@ def exRows : List CoreSheet.CRow :=
     mkRow "" "hard_exit" [("g", "")] none,
     mkRow "" "go_to" [("z", ""), ("v", "")] none "" "" "" "" "" none ["a"],
     mkRow "q" "send_message" [("", "")] (some "Q"),
-    mkRow "" "loose_exit" [("q", "")] none ]
+    mkRow "" "loose_exit" [("q", "")] none,
+    mkRow "qa" "send_message" [("q", "one")] (some "QA"),
+    mkRow "qb" "send_message" [("q", "two"), ("q", "")] (some "QB"),
+    mkRow "u" "send_message" [("qa", ""), ("qb", "")] (some "U"),
+    mkRow "ua" "send_message" [("u", "x")] (some "UA") "" "" "@fields.k",
+    mkRow "ub" "send_message" [("u", "y")] (some "UB") "" "" "@fields.k" ]
 
 /-- the two traces of a sheet (compiler model / reference) under an environment, when both exist -/
 def bothTraces (rows : List CoreSheet.CRow) (env : Nat → Nat) (n : Nat) : Option (List Obs × List Obs) :=
@@ -261,25 +268,28 @@ def bothTraces (rows : List CoreSheet.CRow) (env : Nat → Nat) (n : Nat) : Opti
   | .ok out, .ok r => some (trace ⟨false, true⟩ (Compile.renderOut out) env n, trace ⟨false, true⟩ r env n)
   | _, _ => none
 
-/-- non-vacuity: the sheet is in the fragment, the compiler model compiles it (19 nodes), the
-reference interpretation exists (19 nodes) — and, as the theorem says, the traces agree (checked
-here for three answer streams, the third one passing the three rows with fixed outcomes and the `split_random` row) -/
+/-- non-vacuity: the sheet is in the fragment, the compiler model compiles it (26 nodes: two of
+the action rows have a router node behind their node), the reference interpretation exists (24 nodes) — and, as the theorem says, the traces agree (checked
+here for four answer streams, the third one passing the three rows with fixed outcomes and the
+`split_random` row, the fourth one the two action rows that are left conditionally) -/
 example : CoreSheet.inFragment exRows = true ∧
     (∃ out, Compile.compile RefFlow.noArgsTests exTests (exRows.map CoreSheet.toEvent) = .ok out ∧
-      out.nodes.length = 19) ∧
-    (∃ r, RefFlow.refFlow (exRows.map CoreSheet.toRRow) = .ok r ∧ r.nodes.length = 19) ∧
+      out.nodes.length = 26) ∧
+    (∃ r, RefFlow.refFlow (exRows.map CoreSheet.toRRow) = .ok r ∧ r.nodes.length = 24) ∧
     (bothTraces exRows (fun k => k) 8).map (fun p => decide (p.1 = p.2)) = some true ∧
     (bothTraces exRows (fun k => 2 * k + 1) 8).map (fun p => decide (p.1 = p.2)) = some true ∧
     (bothTraces exRows (fun k => if k = 0 then 3 else if k = 2 then 1 else 0) 15).map
-      (fun p => decide (p.1 = p.2 ∧ p.1.length = 15)) = some true := by
-  refine ⟨by decide +kernel, ?_, ?_, by decide +kernel, by decide +kernel, by decide +kernel⟩
+      (fun p => decide (p.1 = p.2 ∧ p.1.length = 15)) = some true ∧
+    (bothTraces exRows (fun _ => 0) 24).map
+      (fun p => decide (p.1 = p.2 ∧ Obs.act "QA".toList ∈ p.1 ∧ Obs.act "UA".toList ∈ p.1)) = some true := by
+  refine ⟨by decide +kernel, ?_, ?_, by decide +kernel, by decide +kernel, by decide +kernel, by decide +kernel⟩
   · have h : (match Compile.compile RefFlow.noArgsTests exTests (exRows.map CoreSheet.toEvent) with
-        | .ok out => decide (out.nodes.length = 19) | .error _ => false) = true := by decide +kernel
+        | .ok out => decide (out.nodes.length = 26) | .error _ => false) = true := by decide +kernel
     split at h
     · rename_i out ho; exact ⟨out, ho, by simpa using h⟩
     · cases h
   · have h : (match RefFlow.refFlow (exRows.map CoreSheet.toRRow) with
-        | .ok r => decide (r.nodes.length = 19) | .error _ => false) = true := by decide +kernel
+        | .ok r => decide (r.nodes.length = 24) | .error _ => false) = true := by decide +kernel
     split at h
     · rename_i r hr; exact ⟨r, hr, by simpa using h⟩
     · cases h
@@ -316,6 +326,30 @@ theorem fragment_needs_no_hash_bucket_name :
     refuted [mkRow "r" "split_random" [("start", "")] none,
              mkRow "x" "send_message" [("r", "")] (some "X"),
              mkRow "y" "send_message" [("r", "#0")] (some "Y")] 3 = true := by
+  decide +kernel
+
+/-- clause "the conditional edges leaving one action row name the same variable": the router the
+compiler puts behind the node decides on the variable named LAST, the documentation on the one named
+first -/
+theorem fragment_needs_same_variable :
+    refuted [mkRow "a" "send_message" [("start", "")] (some "A"),
+             mkRow "y" "send_message" [("a", "yes")] (some "Y") "" "" "@fields.x",
+             mkRow "n" "send_message" [("a", "no")] (some "N") "" "" "@fields.y"] 3 = true := by
+  decide +kernel
+
+/-- clause "a condition on an edge leaving an action row is not the reserved `no response`": the
+compiler drops such an edge once the router node exists (a warning), the documentation reads a test -/
+theorem fragment_needs_no_noresponse_on_action :
+    refuted [mkRow "a" "send_message" [("start", "")] (some "A"),
+             mkRow "y" "send_message" [("a", "yes")] (some "Y"),
+             mkRow "t" "send_message" [("a", "No Response")] (some "T")] 3 = true := by
+  decide +kernel
+
+/-- clause `distinctTests` for action rows -/
+theorem fragment_needs_distinct_tests_on_action :
+    refuted [mkRow "a" "send_message" [("start", "")] (some "A"),
+             mkRow "y" "send_message" [("a", "yes")] (some "Y"),
+             mkRow "n" "send_message" [("a", "yes")] (some "N")] 4 = true := by
   decide +kernel
 
 /-- clause "no node identifier is given": a given `_nodeId` that collides with an identifier the
